@@ -194,7 +194,8 @@ def harness(eng, fam, P):
             # a root-level output and a rejected (caught) second attempt at it from inside another operation: the stub record
             # of the rejected attempt carries the same key as the real one
             ('BF', 'o/r', {'mode': 'ok', 'name': 'rootbf'}, []),
-            ('SB', 'd', {}, [('BF', 'o/r', {'mode': 'ok', 'catch': True, 'name': 'dup'}, [])]),
+            ('SB', 'd', {}, [('BF', 'o/r', {'mode': 'ok', 'catch': True, 'name': 'dup'}, []),
+                             ('BF', 'o/r2', {'mode': 'ok', 'name': 'after-dup'}, [])]),
             # the same failing query recorded twice with two exception types (missing, then a regular file)
             ('SB', 'e', {}, [('Q', 'list_dir', 'o/q')]),
             ('BF', 'o/q', {'mode': 'ok', 'name': 'q'}, []),
